@@ -24,6 +24,8 @@ var ErrHeld = errHeld{}
 
 type errHeld struct{}
 
+func (errHeld) LockHeld() {}
+
 func (errHeld) Error() string {
 	return "ssync: lock still held although no simulated thread is running (a Lock without Unlock)"
 }
@@ -38,6 +40,7 @@ func (x *Mutex) Lock() {
 		if !x.mu.TryLock() {
 			panic(ErrHeld)
 		}
+		core.NoteLock()
 		return
 	}
 	core.YieldLock(core.KLock, &x.m)
@@ -73,6 +76,7 @@ func (x *RWMutex) Lock() {
 		if !x.mu.TryLock() {
 			panic(ErrHeld)
 		}
+		core.NoteLock()
 		return
 	}
 	core.YieldLock(core.KLock, &x.m)
@@ -89,6 +93,7 @@ func (x *RWMutex) RLock() {
 		if !x.mu.TryRLock() {
 			panic(ErrHeld)
 		}
+		core.NoteLock()
 		return
 	}
 	core.YieldLock(core.KRLock, &x.m)
